@@ -779,6 +779,8 @@ class LogicalLinkController(object):
                     addr = 16 + self.sap[16:32].index(None)
                 except ValueError:
                     raise err.Error(errno.EADDRNOTAVAIL)
+            elif self.sap[addr] is not None:
+                raise err.Error(errno.EADDRINUSE)
             socket.bind(addr)
             self.sap[addr] = ServiceAccessPoint(addr, self)
             self.sap[addr].insert_socket(socket)
